@@ -69,6 +69,8 @@ type runner struct {
 	ids      [][]int   // per shard: case index of each line
 	mu       sync.Mutex
 	restarts int
+	cpu      time.Duration
+	watchdogMS int
 }
 
 func (r *runner) shardFile(s int) string {
@@ -148,6 +150,9 @@ func (r *runner) shard(shard int) error {
 		}
 		cmd := exec.Command(os.Args[0], "--c11-child", r.shardFile(shard), fmt.Sprint(r.offsets[shard][next]))
 		cmd.Env = append(os.Environ(), "GOMAXPROCS=4", "GOTRACEBACK=single")
+		if r.watchdogMS > 0 {
+			cmd.Env = append(cmd.Env, fmt.Sprintf("C11_WATCHDOG_MS=%d", r.watchdogMS))
+		}
 		stderr := &limitedBuf{max: 256 << 10}
 		cmd.Stderr = stderr
 		out, err := cmd.StdoutPipe()
@@ -167,7 +172,11 @@ func (r *runner) shard(shard int) error {
 			close(lines)
 		}()
 		cur, last, done, killed := -1, -1, false, false
-		timer := time.NewTimer(3 * caseWatchdog)
+		pw := 3 * caseWatchdog
+		if r.watchdogMS > 0 {
+			pw = 3 * time.Duration(r.watchdogMS) * time.Millisecond
+		}
+		timer := time.NewTimer(pw)
 	loop:
 		for {
 			select {
@@ -181,7 +190,7 @@ func (r *runner) shard(shard int) error {
 					default:
 					}
 				}
-				timer.Reset(3 * caseWatchdog)
+				timer.Reset(pw)
 				switch {
 				case strings.HasPrefix(l, "B "):
 					fmt.Sscan(l[2:], &cur)
@@ -207,6 +216,11 @@ func (r *runner) shard(shard int) error {
 			}
 		}
 		werr := cmd.Wait()
+		if ps := cmd.ProcessState; ps != nil {
+			r.mu.Lock()
+			r.cpu += ps.UserTime() + ps.SystemTime()
+			r.mu.Unlock()
+		}
 		if done {
 			return nil
 		}
@@ -277,7 +291,7 @@ func (r *runner) runAll() error {
 
 // runOne re-runs a single case in a fresh child (confirmation of timing-based verdicts, --replay).
 func runOne(c *core.Ctx, cs Case) (*Result, error) {
-	r := &runner{c: c, cases: []Case{cs}}
+	r := &runner{c: c, cases: []Case{cs}, watchdogMS: int(3 * caseWatchdog / time.Millisecond)}
 	if err := r.write(fmt.Sprintf("one-%d", time.Now().UnixNano()), 1); err != nil {
 		return nil, err
 	}
@@ -411,14 +425,59 @@ func whatOf(cs *Case, res *Result) string {
 
 // ------------------------------------------------------------------- run
 
+// reader options for zng (readsize small in most: the default 512 KiB read buffer per reader
+// dominates the cost of a case)
 var zngOptList = []Opts{
-	{Threads: 1, ReadMax: 1 << 20, Validate: true},
-	{Threads: 2, ReadMax: 1 << 20, Validate: false},
-	{Threads: 3, ReadMax: 1 << 20, Validate: true},
+	{Threads: 1, ReadMax: 1 << 20, ReadSize: 4096, Validate: true},
+	{Threads: 2, ReadMax: 1 << 20, ReadSize: 4096, Validate: false},
+	{Threads: 3, ReadMax: 1 << 20, ReadSize: 4096, Validate: true},
 	{Threads: 2, ReadMax: 1 << 20, ReadSize: 16, Validate: true},
 	{Threads: 1, ReadMax: 1 << 20, ReadSize: 7, Validate: false},
 	{Threads: 2, ReadMax: 300, ReadSize: 64, Validate: true},
 	{Threads: 16, ReadMax: 1 << 20, Validate: true},
+}
+
+// sampler thins the mutants of one format in the quick tier: truncation at every offset is kept
+// for the chosen seeds, byte overwrites are strided, every other (site, fault class) pair is kept
+// for its first K occurrences across the seeds of the format.
+type sampler struct {
+	full   bool
+	seed   int64
+	counts map[string]int
+}
+
+func byteClass(class string) bool {
+	for _, p := range []string{"metabyte", "databyte", "meta.lz4corrupt", "lz4corrupt", "tv.", "meta.tv.", "byte.", "meta.byte."} {
+		if strings.HasPrefix(class, p) {
+			return true
+		}
+	}
+	return false
+}
+
+func (sp *sampler) keep(format, seedName string, i int, m *Mutant, truncSeed bool) bool {
+	k, stride := 2, 5
+	if sp.full {
+		k, stride = 10, 1
+	}
+	if !sp.full && format == "vng" {
+		k, stride = 1, 8
+	}
+	switch {
+	case m.Class == "none" || m.Class == "random":
+		return true
+	case m.Class == "trunc":
+		return sp.full || truncSeed
+	case byteClass(m.Class):
+		return (int64(i)+sp.seed)%int64(stride) == 0
+	case strings.HasPrefix(m.Class, "nest") || strings.HasPrefix(m.Class, "long"):
+		key := format + "|" + m.Class + "|" + m.Where
+		sp.counts[key]++
+		return sp.counts[key] <= 1 || (sp.full && sp.counts[key] <= 3)
+	}
+	key := format + "|" + m.Class + "|" + m.Where
+	sp.counts[key]++
+	return sp.counts[key] <= k
 }
 
 func run(c *core.Ctx) error {
@@ -426,7 +485,7 @@ func run(c *core.Ctx) error {
 	c.Assume("ZngFault: streams of <= MaxLen items with at most one faulted frame; 2 (thorough: also 3) workers; the io.Reader under the scanner never blocks (in-memory input)")
 	c.Assume("allocation ceiling: 96 MiB + 4*(threads+3)*readmax for zng (readmax configured <= 1 MiB), 96 MiB + 256*len(input) for text readers, 5 GiB for vng / auto-detection (vng metadata is read with zngio's default 1 GiB frame limit and vng.MaxDataSize is 2 GiB -- these are the configured limits)")
 	c.Assume("a value handed out with Validate on must decompose exactly according to its type (record arity, map parity, union/enum selectors, set normal form); primitive payload widths are not part of the check")
-	c.Assume("panics of the ZSON / ZJSON writers on values handed out by a reader are counted (property observe_at: reader + zio.Copy); for binary readers only when Validate is on")
+	c.Assume("panics of the ZSON / ZJSON writers on values handed out by a reader are counted (property observe_at: reader + zio.Copy) for the text readers and for zngio with Validate on; not for vng or auto-detected input (no validation option in force)")
 	c.Rule("cases: (1) every abstract stream x concrete fault class x realization variant exported by TLC from ZngFault.tla, realized as real ZNG bytes, x threads {1,2,3} x consumer {drain, drain+close, stop after k, cancel after k then pull/walk away/wait} x worker-completion gate; (2) structural faults (truncation at every byte offset; boundary values over every frame header, typedef, value tag, type-value byte, VNG header and metadata field; text edits at structural characters) of valid encodings of the generated value universe in zng, vng, zson, zjson, json, csv, tsv, zeek, line, read directly and through anyio auto-detection with reader options (threads, readmax, readsize, validate); (3) auto-detection inputs compared with the AnyDetect decision table; (4) mutated query texts (exploration). A case is non-trivial when the fault was felt: the reader returned an error, or a different number of values than the unfaulted seed, or (proto) a faulted frame / early stop / cancellation was part of the run; distinct = distinct (reader, options, consumer, input bytes).")
 	c.Note("query-text part: exploration only (mutated valid.zed / ztest programs through compiler.Parse + semantic analysis + optimizer + build under recover()+watchdog); nothing about it is decided by a spec")
 	c.Note("coverage-guided byte fuzzing is not part of this check; only the structural fault classes listed in the rule are explored")
@@ -488,64 +547,86 @@ func run(c *core.Ctx) error {
 		cases = append(cases, Case{Kind: "read", Reader: reader, Consumer: consumer, Opts: o, Seed: seed, Class: m.Class, Where: m.Where, Note: m.Note, Sink: sink, Data: m.Data})
 	}
 	k := 0
-	for _, s := range seeds {
+	sp := &sampler{full: full, seed: c.Seed, counts: map[string]int{}}
+	truncSeeds := map[string]bool{"zng/containers/each": true, "zng/unions/one": true, "zng/typevals/each": true, "zng/repeat/comp": true, "zng/named/each": true,
+		"vng/containers": true, "vng/unions": true}
+	// rotate the seed order with VERIF_SEED so that the first-K sampling meets different seeds first
+	rot := int(c.Seed) % len(seeds)
+	if rot < 0 {
+		rot += len(seeds)
+	}
+	order := append(append([]Seed{}, seeds[rot:]...), seeds[:rot]...)
+	for _, s := range order {
 		var muts []Mutant
 		switch s.Format {
 		case "zng":
 			muts, err = zngMutants(s.Data, 1<<20, full)
 			if err == nil && (full || strings.HasSuffix(s.Name, "/each")) {
-				muts = append(muts, randomMutants(rng, s.Data, 40)...)
+				muts = append(muts, randomMutants(rng, s.Data, 12)...)
 			}
 		case "vng":
 			muts, err = vngMutants(s.Data, full)
-			muts = append(muts, randomMutants(rng, s.Data, 20)...)
+			muts = append(muts, randomMutants(rng, s.Data, 8)...)
 		default:
 			muts = textMutants(s.Data, s.Format, full)
-			muts = append(muts, randomMutants(rng, s.Data, 20)...)
+			muts = append(muts, randomMutants(rng, s.Data, 8)...)
 		}
 		if err != nil {
 			return fmt.Errorf("mutants of %s/%s: %w", s.Format, s.Name, err)
 		}
 		muts = append(muts, Mutant{Class: "none", Where: "seed", Data: s.Data})
-		for _, m := range muts {
+		name := s.Format + "/" + s.Name
+		isText := s.Format != "zng" && s.Format != "vng"
+		for mi := range muts {
+			m := muts[mi]
+			if !sp.keep(s.Format, name, mi, &m, truncSeeds[name] || isText) {
+				continue
+			}
 			k++
 			consumer := "drain"
 			if k%7 == 3 {
 				consumer = fmt.Sprintf("stop:%d", k%3)
 			}
-			name := s.Format + "/" + s.Name
 			switch s.Format {
 			case "zng":
 				if full {
-					for _, o := range zngOptList {
-						addRead("zng", consumer, o, name, m)
+					for j := 0; j < 3; j++ {
+						addRead("zng", consumer, zngOptList[(k+j*2+int(c.Seed))%len(zngOptList)], name, m)
 					}
 				} else {
 					addRead("zng", consumer, zngOptList[(k+int(c.Seed))%len(zngOptList)], name, m)
-					addRead("zng", consumer, zngOptList[(k+int(c.Seed)+3)%len(zngOptList)], name, m)
 				}
-				if full || k%4 == 0 {
-					addRead([]string{"auto", "autostream"}[k%2], "drain", Opts{Threads: 2, ReadMax: 1 << 20, Validate: k%3 == 0}, name, m)
+				if k%4 == 0 {
+					addRead([]string{"auto", "autostream"}[(k/4)%2], "drain", Opts{Threads: 2, ReadMax: 1 << 20, ReadSize: 4096, Validate: k%3 == 0}, name, m)
 				}
 			case "vng":
 				addRead("vng", consumer, Opts{Validate: true}, name, m)
-				if full || k%6 == 0 {
-					addRead("auto", "drain", Opts{Threads: 2, ReadMax: 1 << 20, Validate: true}, name, m)
+				if k%6 == 0 {
+					addRead("auto", "drain", Opts{Threads: 2, ReadMax: 1 << 20, ReadSize: 4096, Validate: true}, name, m)
 				}
 			default:
 				addRead(s.Format, consumer, Opts{}, name, m)
-				if s.Format != "line" && (full || k%5 == 0) {
-					addRead([]string{"auto", "autostream"}[k%2], "drain", Opts{Threads: 2, ReadMax: 1 << 20, Validate: true}, name, m)
+				if s.Format != "line" && k%5 == 0 {
+					addRead([]string{"auto", "autostream"}[(k/5)%2], "drain", Opts{Threads: 2, ReadMax: 1 << 20, ReadSize: 4096, Validate: true}, name, m)
 				}
 			}
 		}
 	}
+	hugeCounts := 0
 	for _, m := range typeValueMutants() {
-		for i, o := range []Opts{{Threads: 1, ReadMax: 1 << 20, Validate: true}, {Threads: 2, ReadMax: 1 << 20, Validate: true}, {Threads: 2, ReadMax: 1 << 20}} {
+		for i, o := range []Opts{{Threads: 1, ReadMax: 1 << 20, ReadSize: 4096, Validate: true}, {Threads: 2, ReadMax: 1 << 20, ReadSize: 4096, Validate: true}, {Threads: 2, ReadMax: 1 << 20, ReadSize: 4096}} {
+			if i == 0 && strings.HasPrefix(m.Class, "tvcount.") && (strings.HasSuffix(m.Class, "i64max") || strings.HasSuffix(m.Class, "u32")) {
+				// the ZSON formatter loops over the declared count: each of these is a (known) multi-second
+				// hang; the quick tier runs only one of them
+				hugeCounts++
+				if !full && hugeCounts != 4 {
+					continue
+				}
+			}
 			addRead("zng", "drain", o, "typevalue", m)
 			cases[len(cases)-1].Sink = []string{"zson", "zjson", ""}[i]
 		}
-		addRead("autostream", "drain", Opts{Threads: 2, ReadMax: 1 << 20, Validate: true}, "typevalue", m)
+		addRead("autostream", "drain", Opts{Threads: 2, ReadMax: 1 << 20, ReadSize: 4096, Validate: true}, "typevalue", m)
 		cases[len(cases)-1].Sink = ""
 	}
 	nRead := len(cases)
@@ -557,9 +638,9 @@ func run(c *core.Ctx) error {
 		}
 		var ds [][]byte
 		ds = append(ds, s.Data, nil, s.Data[:len(s.Data)/2], append([]byte("\n"), s.Data...), append([]byte("#"), s.Data...), append(append([]byte{}, s.Data...), 0xff))
-		n := 4
+		n := 2
 		if full {
-			n = 24
+			n = 16
 		}
 		for i := 0; i < n; i++ {
 			ds = append(ds, s.Data[:rng.Intn(len(s.Data))])
@@ -576,11 +657,21 @@ func run(c *core.Ctx) error {
 	// ---- query cases (exploration)
 	corpus := queryCorpus()
 	c.Set("query_corpus_texts", len(corpus))
-	per := 6
+	per := 3
 	if full {
-		per = 40
+		per = 30
 	}
-	for _, m := range queryMutants(rng, corpus, per, true) {
+	if !full && len(corpus) > 90 {
+		// quick: a seed-dependent third of the corpus (valid.zed always included: it comes first)
+		var sub []string
+		for i, q := range corpus {
+			if i < 40 || (i+int(c.Seed))%4 == 0 {
+				sub = append(sub, q)
+			}
+		}
+		corpus = sub
+	}
+	for _, m := range queryMutants(rng, corpus, per, full) {
 		cases = append(cases, Case{Kind: "query", Reader: "query", Consumer: "compile", Class: m.Class, Where: m.Where, Seed: "corpus", Data: m.Data})
 	}
 	nQuery := len(cases) - nRead - nDetect
@@ -659,9 +750,9 @@ func run(c *core.Ctx) error {
 			classes = classesOf[fault]
 		}
 		for _, cl := range classes {
-			nvar := 2
+			nvar := 1
 			if full {
-				nvar = 4
+				nvar = 3
 			}
 			for v := 0; v < nvar; v++ {
 				variant := v
@@ -675,12 +766,18 @@ func run(c *core.Ctx) error {
 				ps, _ := json.Marshal(ProtoSpec{Stream: row.Stream, Class: cl, Variant: variant, Hold: -1})
 				for _, th := range []int{1, 2, 3} {
 					consumers := []string{"drain", "drainclose"}
+					if !full {
+						consumers = []string{[]string{"drain", "drainclose"}[pk%2]}
+					}
 					for kk := 0; kk <= len(row.Stream); kk++ {
-						if full || (kk+pk)%2 == 0 {
+						if full || (kk+pk)%3 == 0 {
 							consumers = append(consumers, fmt.Sprintf("stop:%d", kk))
 						}
-						if th > 1 && (full || (kk+pk)%2 == 1) {
-							consumers = append(consumers, fmt.Sprintf("cancel:%d", kk), fmt.Sprintf("cancelgo:%d", kk))
+						if th > 1 && (full || (kk+pk)%3 == 1) {
+							consumers = append(consumers, fmt.Sprintf("cancel:%d", kk))
+						}
+						if th > 1 && (full || (kk+pk)%3 == 2) {
+							consumers = append(consumers, fmt.Sprintf("cancelgo:%d", kk))
 						}
 					}
 					for _, cons := range consumers {
@@ -733,7 +830,8 @@ func run(c *core.Ctx) error {
 		return err
 	}
 	c.Set("child_restarts", r.restarts)
-	c.Logf("children done (%d restarts)", r.restarts)
+	c.Set("child_cpu_s", r.cpu.Seconds())
+	c.Logf("children done (%d restarts, %.0f CPU-s)", r.restarts, r.cpu.Seconds())
 
 	// ---- verdicts
 	var detTable map[string]string
@@ -972,9 +1070,9 @@ func validateTraces(c *core.Ctx, traces [][]tevent, rng *rand.Rand) error {
 		c.Inconclusive("no hook traces were recorded")
 		return nil
 	}
-	limit := 120
+	limit := 250
 	if !c.Quick() {
-		limit = 1500
+		limit = 2500
 	}
 	// deterministic sample: keep order, take every n-th with an offset from the seed
 	pick := traces
@@ -993,12 +1091,13 @@ func validateTraces(c *core.Ctx, traces [][]tevent, rng *rand.Rand) error {
 	if v := os.Getenv("C11_CORRUPT_TRACE"); v != "" {
 		corruptTrace(all, v)
 	}
-	res, err := c.RunTLC(core.TLCRun{Module: "ZngFaultTrace", Cfg: "ZngFaultTrace.cfg", Files: map[string][]byte{"trace.ndjson": core.NDJSON(all)}, Workers: 1, Timeout: 10 * time.Minute})
-	if err != nil {
+	res, err := c.RunTLC(core.TLCRun{Module: "ZngFaultTrace", Cfg: "ZngFaultTrace.cfg", Files: map[string][]byte{"trace.ndjson": core.NDJSON(all)}, DFS: true, Timeout: 10 * time.Minute})
+	if res == nil {
 		return err
 	}
-	c.Logf("TLC trace validation: %d traces, %d events, %d distinct states, status %s", len(pick), len(all), res.Distinct, res.Status)
-	if res.Status == "ok" {
+	accepted := strings.Contains(res.Out, "<<\"ACCEPTED\"")
+	c.Logf("TLC trace validation: %d traces, %d events, %d distinct states, accepted=%v (%s)", len(pick), len(all), res.Distinct, accepted, res.Status)
+	if accepted && res.Status == "ok" {
 		c.Add("traces_validated_against_impl", int64(len(pick)))
 		c.Set("trace_events_validated", len(all))
 		c.Sample(map[string]any{"kind": "trace", "events": pick[len(pick)/2]})
@@ -1008,18 +1107,22 @@ func validateTraces(c *core.Ctx, traces [][]tevent, rng *rand.Rand) error {
 	hw := -1
 	for _, p := range res.Prints {
 		var a, b int
-		if _, err := fmt.Sscanf(p, "<<\"HW\", %d, %d>>", &a, &b); err == nil {
+		if _, e := fmt.Sscanf(p, "<<\"HW\", %d, %d>>", &a, &b); e == nil {
 			hw = a
 		}
 	}
 	if res.Status == "invariant" {
 		// The real execution, accepted as a behaviour of the spec so far, reached a state in which a
 		// protocol invariant is false.
-		c.Violate("trace-invariant:"+res.Violated, fmt.Sprintf("a recorded execution of the zngio scanner violates %s of ZngFault.tla (event %d of the trace file)", res.Violated, hw), map[string]any{"trace_tail": tail(all, hw, 40)})
+		c.Violate("trace-invariant:"+res.Violated, fmt.Sprintf("a recorded execution of the zngio scanner violates %s of ZngFault.tla", res.Violated), map[string]any{"trace": all, "tlc": truncate(res.Out, 4000)})
 		return nil
 	}
-	c.Drift("trace validation stopped at event %d of %d (status %s): %s", hw, len(all), res.Status, mustJSON(tail(all, hw+1, 12)))
-	c.Inconclusive("hook traces of the real scanner are not accepted by ZngFaultTrace (event %d of %d); the spec and the code disagree on the protocol", hw, len(all))
+	if res.Status == "timeout" || (err != nil && !strings.Contains(res.Out, "Postcondition")) {
+		return err
+	}
+	// rejected: no behaviour of the spec explains the recorded events (DESIGN 2.3: drift, not an alarm)
+	c.Drift("hook traces of the real scanner are not accepted by ZngFaultTrace: validation stops at event %d of %d: %s", hw+1, len(all), mustJSON(tail(all, hw, 14)))
+	c.Set("trace_rejected_at_event", hw+1)
 	return nil
 }
 
